@@ -84,6 +84,9 @@ structure KindInfo where
   pushCount : Bool
   /-- map families: the element is `pair<Key,T>` and the fast-path test is made on `Key` and `T` -/
   mapLike : Bool
+  /-- map families (finding F16): the codec hands each `pair<const Key,T>` element to `Codec<pair<Key,T>>`, which takes
+      `pair<Key,T> const&` — an implicit converting *copy* of the element in the size pass and again in the encode pass -/
+  pairTemp : Bool
   deriving DecidableEq, Repr
 
 /-- a one-`memcpy` encode of `pair<Key,T>` elements would copy the padding of `std::pair`; no std/ codec does that -/
@@ -598,12 +601,29 @@ inductive Event
   | userCopy
   /-- a `fmt::formatter` runs on the calling thread (direct-format types only) -/
   | formatCall
+  /-- converting copy of a non trivially copyable `pair<const Key,T>` map element (allocates whenever `Key`/`T` do) -/
+  | pairCopy
   deriving Repr, DecidableEq
+
+/-- copying an object of this type runs no user code and cannot allocate (`Shape.str` stands for `std::string` as
+    well as `std::string_view`, so it counts as not trivially copyable — an over-approximation for the latter) -/
+def trivCopy : Shape → Bool
+  | .prim _ _ => true
+  | .cstr => true
+  | .carr _ => true
+  | .pair a b => trivCopy a && trivCopy b
+  | .pod _ => true
+  | .sref => true
+  | _ => false
+
+/-- does the codec of this container copy its elements into temporaries that may allocate? -/
+def copiesPairs (ki : KindInfo) (es : Shape) : Bool := ki.pairTemp && !trivCopy es
 
 mutual
 /-- user-visible work the two passes do on the caller besides copying bytes, in order -/
 def argEvents : Arg → List Event
-  | .seq _ _ elems => argEventsL elems
+  | .seq ki es elems =>
+    (if copiesPairs ki es then List.replicate (2 * elems.length) Event.pairCopy else []) ++ argEventsL elems
   | .optSome a => argEvents a
   | .pair a b => argEvents a ++ argEvents b
   | .tuple l => argEventsL l
